@@ -3,15 +3,15 @@
  "property": "C12",
  "standin": "B-gsu",
  "bound": "displays with <= 3 elements x 4 layouts x 4 kinds x delete subsets x 5 insert patterns (1500 sampled cases quick / all thorough) through the real apply_all + new_code",
- "input": "('list', 'single', ('1', '0+2'), (1,), {1: ['\"\"\"x\\ny\"\"\"']})",
- "detail": "result does not parse (unmatched ']'): 'x = \\'\u00e4\u00f6\\'; v = , \"\"\"x\\ny\"\"\"+2]  # tail\\ny = 2\\n'"
+ "input": "('list', 'trailing', (\"'s'\", 'f(5)', '0+2'), (1,), {3: ['8', '9']})",
+ "detail": "result does not parse (unterminated string literal (detected at line 1)): \"x = '\u00e4\u00f6'; v = [', , 0, 8, 92,]  # tail\\ny = 2\\n\""
 }
 """
 
 import sys, tempfile
 sys.path.insert(0, "/verif")
 from bounded.b_gsu import one_case
-msg = one_case(tempfile.mkdtemp(), *('list', 'single', ('1', '0+2'), (1,), {1: ['"""x\ny"""']}))
-print(('list', 'single', ('1', '0+2'), (1,), {1: ['"""x\ny"""']}), "->", msg)
+msg = one_case(tempfile.mkdtemp(), *('list', 'trailing', ("'s'", 'f(5)', '0+2'), (1,), {3: ['8', '9']}))
+print(('list', 'trailing', ("'s'", 'f(5)', '0+2'), (1,), {3: ['8', '9']}), "->", msg)
 assert msg is None, msg
 
